@@ -264,6 +264,46 @@ def mirror_edits(case, lst):
         lst.apply_block_edits(b, mods)
 
 
+def attach_bystander(case, bu, seed):
+    """a second module in the same IR that the rewrite is not about: either
+    a twin of the input (every symbol, section and function name occurs in
+    both modules) or an unrelated generated module (possibly of another ISA).
+    Its edges live in the same ir.cfg."""
+    import random
+    by = case["bystander"]
+    if by == "twin":
+        by = {k: v for k, v in case.items()
+              if k not in ("edits", "newfuncs", "extern_lookups",
+                           "bystander", "driver", "retargets")}
+        by["edits"] = []
+    bu2, _ = irbuild.build(by, random.Random(f"uuid-bystander:{seed}"))
+    m2 = bu2.module
+    m2.name = "zz-bystander"
+    edges = list(bu2.ir.cfg)
+    m2.ir = bu.ir
+    bu.ir.cfg.update(edges)
+    bu.bystander = m2
+    bu.bystander_built = bu2
+
+
+def bystander_changes(r):
+    """facets of the bystander module that differ from before the rewrite"""
+    if getattr(r, "by_before", None) is None:
+        return None
+    from . import canon
+    after = canon.module_facets(r.bu.ir, r.bu.bystander) \
+        if r.bu.bystander.ir is r.bu.ir else {}
+    out = []
+    for k in sorted(set(r.by_before) | set(after)):
+        if k == "aux:leafFunctions":
+            # the library's own bookkeeping table (what PassManager's context
+            # for the other module leaves behind; exempt in C10 as well)
+            continue
+        if r.by_before.get(k) != after.get(k):
+            out.append(k)
+    return out
+
+
 def run(case, fault_at=None, fault_kind="raise", seed=0, driver=None,
         before_apply=None, register_order=None):
     install()
@@ -273,6 +313,11 @@ def run(case, fault_at=None, fault_kind="raise", seed=0, driver=None,
     bu, lst0 = irbuild.build(case, rng)
     bu.item_offsets = {bid: lst0.item_offsets(bid) for bid in lst0.block_info}
     m = bu.module
+    by_before = None
+    if case.get("bystander"):
+        from . import canon
+        attach_bystander(case, bu, seed)
+        by_before = canon.module_facets(bu.ir, bu.bystander)
     from gtirb_rewriting import RewritingContext
     have_fn = "functionEntries" in m.aux_data and "functionBlocks" in \
         m.aux_data
@@ -284,6 +329,7 @@ def run(case, fault_at=None, fault_kind="raise", seed=0, driver=None,
     r.case, r.bu, r.lst0, r.rec = case, bu, lst0, rec
     r.functions = functions
     r.exception = None
+    r.by_before = by_before
     r.orig_cfg = bu.ir.cfg
     _current = rec
     try:
